@@ -239,8 +239,16 @@ def gen_cfg(rng, quick, force=None):
     api = str(rng.choice(['ctor', 'setBC'], p=[0.4, 0.6]))
     if ne == 1 and rng.random() < 0.3:
         api = 'setBC_none'
+    if force.get('family') == 'two_models':
+        bc = {e: {'L': ['flux', 0.0], 'R': ['flux', 0.0]} for e in els[1:]}
+    if all(b == ['flux', 0.0] for d in bc.values() for b in d.values()) and (rng.random() < 0.6 or force.get('family') == 'two_models'):
+        api = 'default'             # no boundary condition is given at all: the documented default is closed boundaries
+    # other models living in the same process (built before and after this one, with their own boundary conditions)
+    neighbour = None
+    if rng.random() < 0.35 or force.get('family') == 'two_models':
+        neighbour = {'comp': float(rng.uniform(0.05, cap)), 'flux': float(10 ** rng.uniform(-13, -9))}
     cfg = {'kind': kind, 'ne': ne, 'N': N, 'zlim': zlim, 'elements': els, 'profiles': profiles, 'minc': minc,
-           'stub': stub, 'T': Tspec, 'bc': bc, 'api': api,
+           'stub': stub, 'T': Tspec, 'bc': bc, 'api': api, 'neighbour': neighbour,
            'iterator': str(rng.choice(['euler', 'rk4'])),
            'hom': {'fn': str(rng.choice(['wiener upper', 'wiener lower', 'hashin upper', 'hashin lower', 'lab'])),
                    'lab': int(rng.choice([1, 2])), 'eps': float(rng.choice([0.0, 0.01, 0.05]))},
@@ -252,12 +260,54 @@ def gen_cfg(rng, quick, force=None):
     cfg['minc_post'] = None
     if rng.random() < 0.35:
         cfg['minc_post'] = float(rng.choice([v for v in (1e-6, 1e-4, 1e-3) if v != minc]))
+    add_threshold_values(cfg, rng, 0.3 if force.get('family') == 'trace_window' else 0.12)
+    if force.get('family') == 'trace_window':
+        # a trace component: one side of a step sits in the neighbourhood of the thresholds of the setup rule
+        e = els[1]
+        zmid = 0.5 * (zlim[0] + zlim[1])
+        cfg['profiles'][e] = [['step', threshold_value(cfg, rng), float(rng.uniform(0.1, cap)), zmid]]
     fill_scales(cfg, rng)
     gen_changes(cfg, rng)
     fam = force.get('family')
-    if fam:
+    if fam and fam != 'trace_window':
         apply_family(cfg, fam, rng)
     return cfg
+
+
+def threshold_value(cfg, rng, high=False):
+    """a composition in the neighbourhood of the comparisons the setup / clip rules make: multiples of the
+    minimum composition that is live at setup (k*min for k around 0, 1, len(allElements), len(allElements)+1),
+    or - for a binary - 1 minus such a multiple"""
+    m = cfg['minc_post'] if cfg.get('minc_post') is not None else cfg['minc']
+    nall = len(cfg['elements'])
+    k = float(rng.choice([0.5, 1.0, 1.0 + 2.0 ** -30, 1.25, 1.5, nall - 0.5, nall, nall + 0.5, nall + 1 - 2.0 ** -30, nall + 1,
+                          nall + 1.5, rng.uniform(0, nall + 2)]))
+    v = k * m
+    return float(1 - v) if high else float(v)
+
+
+def add_threshold_values(cfg, rng, p):
+    """replace some of the values the profile builders and the composition conditions use by threshold values"""
+    binary = cfg['ne'] == 1 and cfg['kind'] == 'sp'
+
+    def tv():
+        return threshold_value(cfg, rng, high=binary and rng.random() < 0.25)
+    for e, steps in cfg['profiles'].items():
+        for st in steps:
+            t = st[0]
+            idxs = {'step': [1, 2], 'linear': [1, 2], 'bounded': [1], 'single': [1]}.get(t, [])
+            if t == 'function':
+                idxs = [5] if st[1] == 'gauss' else [2, 3]
+            for i in idxs:
+                if rng.random() < p:
+                    st[i] = tv() if not (t == 'function' and st[1] == 'gauss') else threshold_value(cfg, rng)
+            if t == 'data':
+                st[2] = [tv() if rng.random() < p else v for v in st[2]]
+    for e in cfg['bc']:
+        for side in ('L', 'R'):
+            b = cfg['bc'][e][side]
+            if b[0] == 'comp' and rng.random() < 2 * p:
+                b[1] = tv()
 
 
 def draw_bc(rng, cap, jmag):
@@ -349,6 +399,21 @@ def fill_scales(cfg, rng):
     cfg['jmag'] = jmag
 
 
+def make_neighbour(cfg):
+    """another model of the same kind and elements in the same process, default-constructed and given its own
+    boundary conditions; it is never solved and must not influence the model under test"""
+    nb = cfg.get('neighbour')
+    if not nb:
+        return None
+    from kawin.diffusion import SinglePhaseModel, HomogenizationModel
+    from kawin.diffusion.DiffusionParameters import BoundaryConditions as B
+    els = cfg['elements']
+    other = (SinglePhaseModel if cfg['kind'] == 'sp' else HomogenizationModel)(cfg['zlim'], max(2, cfg['N'] // 2), els, ['P'] if cfg['kind'] == 'sp' else ['P1', 'P2'])
+    for e in els[1:]:
+        other.setBC(B.COMPOSITION_BC, nb['comp'], B.FLUX_BC, nb['flux'], element=e)
+    return other
+
+
 def build_model(cfg):
     from kawin.diffusion.DiffusionParameters import BoundaryConditions, CompositionProfile, TemperatureParameters, DiffusionConstraints
     from kawin.diffusion.HomogenizationParameters import HomogenizationParameters
@@ -389,22 +454,27 @@ def build_model(cfg):
                 if not (b[0] == 'flux' and b[1] == 0.0):
                     bcobj.setBoundaryCondition(sc, code[b[0]], b[1], e)
     cls = logging_class(cfg['kind'])
+    closed = all(b[0] == 'flux' and b[1] == 0.0 for d in cfg['bc'].values() for b in d.values())
+    api = cfg['api'] if not (cfg['api'] == 'default' and not closed) else 'setBC'
+    kw = {'temperatureParameters': tp, 'compositionProfile': cp, 'constraints': cons}
+    if bcobj is not None:
+        kw['boundaryConditions'] = bcobj        # otherwise the argument is left out: the constructor's own default
+    make_neighbour(cfg)
     if cfg['kind'] == 'sp':
         therm = StubD(ne, cfg['stub']['base'], cfg['stub']['a'], cfg['stub']['off'])
-        m = cls(cfg['zlim'], cfg['N'], els, ['P'], thermodynamics=therm, temperatureParameters=tp,
-                boundaryConditions=bcobj, compositionProfile=cp, constraints=cons)
+        m = cls(cfg['zlim'], cfg['N'], els, ['P'], thermodynamics=therm, **kw)
     else:
         hp = HomogenizationParameters(cfg['hom']['fn'], labyrinthFactor=cfg['hom']['lab'], eps=cfg['hom']['eps'])
-        m = cls(cfg['zlim'], cfg['N'], els, ['P1', 'P2'], thermodynamics=ThermStub(els), temperatureParameters=tp,
-                boundaryConditions=bcobj, compositionProfile=cp, constraints=cons, homogenizationParameters=hp)
+        m = cls(cfg['zlim'], cfg['N'], els, ['P1', 'P2'], thermodynamics=ThermStub(els), homogenizationParameters=hp, **kw)
         m.hashTable = ScriptedTable(ne + 1, cfg['stub']['scale'], cfg['stub']['skew'])
+    make_neighbour(cfg)
     m.fluxlog = []
     if cfg.get('minc_post') is not None:
         m.constraints.minComposition = cfg['minc_post']
-    if cfg['api'] in ('setBC', 'setBC_none'):
+    if api in ('setBC', 'setBC_none'):
         for e in els[1:]:
             l, r = cfg['bc'][e]['L'], cfg['bc'][e]['R']
-            if cfg['api'] == 'setBC_none':
+            if api == 'setBC_none':
                 m.setBC(code[l[0]], l[1], code[r[0]], r[1])            # element left to its default
             else:
                 m.setBC(code[l[0]], l[1], code[r[0]], r[1], element=e)
@@ -799,6 +869,8 @@ def simplify_candidates(cfg):
                         out.append(var(changes=chg[:k] + [c2] + chg[k + 1:]))
     if cfg.get('minc_post') is not None:
         out.append(var(minc_post=None))
+    if cfg.get('neighbour'):
+        out.append(var(neighbour=None))
     if cfg['iterator'] != 'euler':
         out.append(var(iterator='euler'))
     if cfg['T'][0] != 'iso':
@@ -950,7 +1022,7 @@ def run(ctx):
                        '(scripted two-phase mobility table driving the five homogenisation functions), 1-3 independent elements, 2..24 nodes (quick) / 2..80 '
                        '(thorough), profile builders step/linear/bounded/single/function/data (also stacked), isothermal / time table / T(z,t) field, every mix of '
                        'flux (zero and non-zero) and composition conditions per element and side set through the constructor, setBC(element=..) or setBC() '
-                       'default element, boundary conditions (type and value) and constraints.minComposition edited between consecutive solve calls and after construction (the oracle '
+                       'default element or not at all (default closed boundaries) while other default-constructed models of the same elements in the same process are given their own conditions, profile and boundary values in the neighbourhood of the thresholds of the setup / clip rules (multiples of the live minimum composition, 1 minus such), boundary conditions (type and value) and constraints.minComposition edited between consecutive solve calls and after construction (the oracle '
                        'uses the conditions and the live constraint values in force during each call), '
                        'default element, Euler / RK4, 1-3 consecutive solve calls with or without an explicit setup(), minComposition 1e-8/1e-6/1e-4; a case is '
                        'non-trivial when the profile is not flat or a boundary flux is non-zero; distinct by hash of the configuration / of the exact arrays')
@@ -966,7 +1038,8 @@ def run(ctx):
     # ---- runs: corpus first, then generated -------------------------------------------------
     ncfg = 60 if quick else 300
     nfam = 2 if quick else 12
-    fams = [gen_cfg(ctx.rng, quick, {'family': f}) for f in ('bc_switch', 'min_raised_between', 'min_raised_after_ctor') for _ in range(nfam)]
+    fams = [gen_cfg(ctx.rng, quick, {'family': f}) for f in ('bc_switch', 'min_raised_between', 'min_raised_after_ctor', 'trace_window') for _ in range(nfam)]
+    fams += [gen_cfg(ctx.rng, quick, {'family': 'two_models', 'kind': k}) for k in ('sp', 'hom') for _ in range(max(1, nfam // 2))]
     cfgs = corpus_cfgs() + fams + [gen_cfg(ctx.rng, quick) for _ in range(ncfg - len(fams))]
     terms, meta = [], []
     step_budget = 2 if quick else 4
@@ -990,6 +1063,7 @@ def run(ctx):
         ctx.hist('edited_between_calls', 'bc+min' if any(c.get('bc') for c in chs) and any(c.get('minc') is not None for c in chs)
                  else 'bc' if any(c.get('bc') for c in chs) else 'min' if chs else 'nothing')
         ctx.hist('min_edited_after_construction', cfg.get('minc_post') is not None)
+        ctx.hist('other_models_in_process', bool(cfg.get('neighbour')))
         for e in cfg['bc']:
             ctx.hist('bc_mix', cfg['bc'][e]['L'][0] + ('0' if cfg['bc'][e]['L'][1] == 0.0 else '') + '/' + cfg['bc'][e]['R'][0] + ('0' if cfg['bc'][e]['R'][1] == 0.0 else ''))
             for st in cfg['profiles'][e]:
